@@ -220,7 +220,7 @@ def statements(kind):
     S.append(("log", [X], 1, 33))
     if full:
         S.append(("log", [X, Y], 0, 0))
-    for (d, s_, n) in ((0, 32, 32), (1, 0, 33), (32, 0, 64), (0, 1, 32)) if full else ((1, 0, 33), (32, 0, 64)):
+    for (d, s_, n) in ((0, 32, 32), (1, 0, 33), (32, 0, 64), (0, 1, 32), (64, 64, 32), (0, 0, 48)) if full else ((1, 0, 33), (32, 0, 64)):
         S.append(("mcopy", d, s_, n))
     for (d, o, n) in ((0, 0, 64), (1, 31, 33), (0, 60, 32)) if full else ((1, 31, 33), (0, 60, 32)):
         S.append(("calldatacopy", d, o, n))
